@@ -298,6 +298,9 @@ def judge_order(xs, out, strict):
   spl = np.argwhere((sx == 0) & (so != 0))
   if len(spl):
     i, j = idx[spl[0][0]], idx[spl[0][1]]
+    # how far apart the images of EQUAL labels are at most (float32 lane noise is a few ulps; anything more is not)
+    worst = max(abs(out[idx[a]] - out[idx[b]]) for a, b in spl)
+    LAST_REVERSAL[0] = (worst, max(abs(out[k]) for k in idx))
     return 'equal labels %r at positions %d,%d got different images %r, %r' % (xs[i], i, j, out[i], out[j])
   if strict:
     col = np.argwhere((sx != 0) & (so == 0))
@@ -356,8 +359,8 @@ def judge_pipeline(cx, op, xs, res, kind):
   if msg is None:
     return
   rv = LAST_REVERSAL[0]
-  if is_reversal(msg) and msg.startswith('order reversed') and cls == 'resolution' and op == 'outlier' and rv is not None and \
-     rv[0] <= 4 * 2.0 ** -23 * max(1.0, rv[1]):
+  if is_reversal(msg) and ((msg.startswith('order reversed') and cls == 'resolution') or msg.startswith('equal labels')) and \
+     op == 'outlier' and rv is not None and rv[0] <= 4 * 2.0 ** -23 * max(1.0, rv[1]):
     fail(KEY_F32_NOISE, msg + ' (images within 4 float32 ulps: labels closer than 2^-40 of the range)')
   elif is_reversal(msg):
     fail('order-reversed:' + op, msg)
@@ -405,7 +408,9 @@ def judge_component(cx, op, xs, res, kind):
   msg = judge_order(xs, out, strict=False)
   if msg is not None:
     rv = LAST_REVERSAL[0]
-    f32_noise = (cls == 'resolution' and op in ('gauss', 'gauss_rank') and rv is not None and
+    # labels the float32 transform cannot separate: closer than its resolution (class `resolution`) - or EQUAL
+    # (gap 0: the two positions went through different vector lanes)
+    f32_noise = ((cls == 'resolution' or msg.startswith('equal labels')) and op in ('gauss', 'gauss_rank') and rv is not None and
                  rv[0] <= 4 * 2.0 ** -23 * max(1.0, rv[1]))
     if op == 'gauss_rank' and not f32_noise:
       fail(KEY_GAUSS_RANK, msg + ' — use_rank=True takes np.argsort (a permutation) for the ranks')
@@ -553,6 +558,11 @@ def tie_cases(cx, cases):
       continue
     rel = order_relation(m['ord'], rv)
     float32 = op in ('outlier', 'gauss')
+    if rel == 'different' and float32:
+      # EQUAL labels whose images differ by float32 lane noise (<= 4 ulps; recorded finding
+      # gauss-transform-float32-rank-noise, reported by the property stage): merged for the tie
+      finv = [abs(v) for v in rv if v == v and math.isfinite(v)]
+      rel = order_relation(m['ord'], rv, 4 * 2.0 ** -23 * max([1.0] + finv))
     if rel == 'different' or (rel == 'coarser' and not float32):
       c.tie_break('%s: order type' % op, case, dense_ranks(rv), m['ord'])
       continue
